@@ -58,4 +58,9 @@ theorem js_tree_relex : type_of% @Verif.Proofs.C09Js.js_tree_relex := @Verif.Pro
     printed tree in the independent grammar: valid, and re-lexed to the intended tokens -/
 theorem js_expr_relex : type_of% @Verif.Proofs.C09Js.js_expr_relex := @Verif.Proofs.C09Js.js_expr_relex
 
+/-- **JS, statement printer** (partial, guard = every printed expression tree is a grammar tree with plain names):
+    the bytes of the statement printer model are read back as exactly the tokens written -/
+theorem js_print_relex_partial : type_of% @Verif.Proofs.C09Js.js_print_relex_partial :=
+  @Verif.Proofs.C09Js.js_print_relex_partial
+
 end Verif.Props.C09
